@@ -11,13 +11,6 @@
 namespace Unyt.Ref
 
 def exclC07 : List (String × String) := [
-  -- np.einsum labels the result with the COMMON unit of the operands instead of their product
-  ("numpy.einsum", "degree:0:0:c:1/c:2"),
-  ("numpy.einsum", "degree:0:0:c:1/c:3"),
-  -- … and in the sublist form `einsum(a, [0,1], [1,0])` takes the array for the subscripts: dimensionless result
-  ("numpy.einsum", "degree:0:0:c:0/c:1"),
-  -- np.linalg.det: `a.units ** a.shape[0]` — the stack size, not the matrix order `a.shape[-1]`
-  ("numpy.linalg.det", "degree:0:0:d:a:0/d:a:-1"),
   -- np.linalg.lstsq labels the residuals Σ|b − A x|² with b/a instead of b²
   ("numpy.linalg.lstsq", "degree:1:0:c:-1/c:0"),
   ("numpy.linalg.lstsq", "degree:1:1:c:1/c:2"),
@@ -25,28 +18,16 @@ def exclC07 : List (String × String) := [
   ("numpy.histogram2d", "degree:0:2:c:1/c:0"),
   -- … and so does np.histogram (same code)
   ("numpy.histogram", "degree:0:1:c:1/c:0"),
-  -- np.intersect1d(return_indices=True) returns the common values as a bare array
-  ("numpy.intersect1d", "degree:0:0:c:0/c:1"),
   -- np.prod: an `initial` that carries units is one more factor; a masked product has no single degree
   ("numpy.prod", "degree:0:0:r:a/k:a+1"),
   ("numpy.prod", "refuse"),
   -- np.logspace(base=<quantity>): base**y labelled with base.units
   ("numpy.logspace", "refuse"),
   -- np.sinc of a dimensional argument silently returns bare numbers
-  ("numpy.sinc", "refuse"),
-  -- np.nanpercentile/nanquantile(out=<unyt_array>): the result is labelled a.units × (the buffer's old unit)
-  ("numpy.nanpercentile", "degree:0:foreign:out:c:1"),
-  ("numpy.nanpercentile", "out-label:0:c:0/c:1"),
-  ("numpy.nanquantile", "degree:0:foreign:out:c:1"),
-  ("numpy.nanquantile", "out-label:0:c:0/c:1"),
-  -- np.percentile/quantile(out=<unyt_array>): the buffer that holds the result ends up dimensionless
-  ("numpy.percentile", "out-label:0:c:0/c:1"),
-  ("numpy.quantile", "out-label:0:c:0/c:1")
+  ("numpy.sinc", "refuse")
 ]
 
 /-- handled dimension-preserving functions with a row whose first leaf does not carry the input's unit -/
-def exclC07DimPreserving : List String := [
-  "numpy.intersect1d", "numpy.nanpercentile", "numpy.nanquantile"
-]
+def exclC07DimPreserving : List String := []
 
 end Unyt.Ref
